@@ -89,6 +89,47 @@ type c16Rule struct {
 type c16Item struct {
 	Rule   *c16Rule `json:"rule,omitempty"`
 	Marker string   `json:"marker,omitempty"`
+	// Default is the action list of a SecDefaultAction directive (phase included). It compiles to
+	// no rule of its own; every later rule of that phase inherits from it.
+	Default []c16Act `json:"default,omitempty"`
+}
+
+// compiled lists the items that produce an entry in the rule list (everything but settings).
+func (d *c16Desc) compiled() []c16Item {
+	var out []c16Item
+	for _, it := range d.Items {
+		if it.Default == nil {
+			out = append(out, it)
+		}
+	}
+	return out
+}
+
+func c16PhaseOf(acts []c16Act) int {
+	ph := 2
+	for _, a := range acts {
+		if strings.ToLower(a.Name) == "phase" {
+			switch string(a.Val) {
+			case "request":
+				ph = 2
+			case "response":
+				ph = 4
+			case "logging":
+				ph = 5
+			default:
+				ph, _ = strconv.Atoi(string(a.Val))
+			}
+		}
+	}
+	return ph
+}
+
+func c16IsDisruptive(name string) bool {
+	switch strings.ToLower(name) {
+	case "deny", "drop", "pass", "block", "allow", "redirect":
+		return true
+	}
+	return false
 }
 
 type c16Desc struct {
@@ -278,6 +319,18 @@ func c16ActionValue(r *rand.Rand, long int) string {
 	// some actions (msg): not generated
 	if s[0] == '\'' || s[0] == '"' {
 		s = "v" + s
+	}
+	// blanks INSIDE the quotes, at either end of the value, belong to the value
+	if long == 0 && c16Chance(r, 0.15) {
+		pads := []string{" ", "  ", "\t", " \t"}
+		switch r.IntN(3) {
+		case 0:
+			s = c16Pick(r, pads) + s
+		case 1:
+			s += c16Pick(r, pads)
+		default:
+			s = c16Pick(r, pads) + s + c16Pick(r, pads)
+		}
 	}
 	return s
 }
@@ -555,7 +608,7 @@ var c16Ctls = []string{"ruleEngine=Off", "ruleEngine=DetectionOnly", "ruleRemove
 
 // c16GenActions builds the action list of a starter (link=false) or chain link.
 // flags: probeable rules avoid actions that change what a later observation means.
-func c16GenActions(r *rand.Rand, v *c16Vocab, id int, link, chain, probeable bool, long int) []c16Act {
+func c16GenActions(r *rand.Rand, v *c16Vocab, id int, link, chain, probeable bool, long int, pref []int) []c16Act {
 	var as []c16Act
 	add := func(a c16Act) {
 		if v.acts[strings.ToLower(a.Name)] {
@@ -593,7 +646,7 @@ func c16GenActions(r *rand.Rand, v *c16Vocab, id int, link, chain, probeable boo
 	}
 	for i, n := 0, c16Pick(r, []int{0, 0, 1, 2, 3}); i < n; i++ {
 		if c16Chance(r, 0.5) {
-			put(c16AV("tag", c16Pick(r, []string{"attack-sqli", "OWASP_CRS/WEB_ATTACK/SQL", "paranoia-level/1", "capec/1000/152/248/66", "a,b", "x:y", "it\\'s", "platform-multi"})))
+			put(c16AV("tag", c16Pick(r, []string{"attack-sqli", "OWASP_CRS/WEB_ATTACK/SQL", "paranoia-level/1", "capec/1000/152/248/66", "a,b", "x:y", "it\\'s", "platform-multi", "trail ", " lead", " t,1 "})))
 		} else {
 			put(c16AV("tag", c16ActionValue(r, 0)))
 		}
@@ -621,10 +674,10 @@ func c16GenActions(r *rand.Rand, v *c16Vocab, id int, link, chain, probeable boo
 		put(c16AV("severity", c16Pick(r, c16Severities)))
 	}
 	if c16Chance(r, 0.15) {
-		put(c16AV("rev", c16Pick(r, []string{"1", "2.1.3", "a,b", "r:1"})))
+		put(c16AV("rev", c16Pick(r, []string{"1", "2.1.3", "a,b", "r:1", " 2 ", "r "})))
 	}
 	if c16Chance(r, 0.15) {
-		put(c16AV("ver", c16Pick(r, []string{"OWASP_CRS/4.0.0", "v1", "x, y"})))
+		put(c16AV("ver", c16Pick(r, []string{"OWASP_CRS/4.0.0", "v1", "x, y", "\tv1", " OWASP_CRS/4.0.0 "})))
 	}
 	if c16Chance(r, 0.1) {
 		put(c16AV("maturity", c16Itoa(1+r.IntN(9))))
@@ -661,7 +714,10 @@ func c16GenActions(r *rand.Rand, v *c16Vocab, id int, link, chain, probeable boo
 		}
 	}
 	if !link {
-		if c16Chance(r, 0.5) {
+		if len(pref) > 0 && c16Chance(r, 0.3) {
+			// relies on the SecDefaultAction of its phase
+			put(c16A("block"))
+		} else if c16Chance(r, 0.5) {
 			switch x := r.IntN(12); {
 			case x < 4:
 				put(c16A("deny"))
@@ -706,6 +762,9 @@ func c16GenActions(r *rand.Rand, v *c16Vocab, id int, link, chain, probeable boo
 	body = append(body, ts[ti:]...)
 	if !link {
 		ph := c16Pick(r, []string{"1", "2", "2", "3", "4", "5", "request", "response", "logging"})
+		if len(pref) > 0 && c16Chance(r, 0.75) {
+			ph = c16Itoa(c16Pick(r, pref))
+		}
 		head := []c16Act{c16AV("id", c16Itoa(id)), c16AV("phase", ph)}
 		if c16Chance(r, 0.3) {
 			// id / phase somewhere in the middle
@@ -730,6 +789,7 @@ func c16GenActions(r *rand.Rand, v *c16Vocab, id int, link, chain, probeable boo
 type c16GenOpt struct {
 	long     int    // extra bytes to put somewhere (0 = normal sizes)
 	longKind string // msg | arg | targets
+	pref     []int  // phases that have a SecDefaultAction: rules prefer them
 }
 
 func c16GenOperator(r *rand.Rand, v *c16Vocab, rule *c16Rule, probeable bool, long int) {
@@ -810,9 +870,13 @@ func c16GenRule(r *rand.Rand, v *c16Vocab, id int, link bool, depth int, o c16Ge
 			rule.Probe = nil
 		}
 	}
-	rule.Actions = c16GenActions(r, v, id, link, chain, rule.Probe != nil, longMsg)
+	rule.Actions = c16GenActions(r, v, id, link, chain, rule.Probe != nil, longMsg, o.pref)
 	if chain {
 		rule.Chain = c16GenRule(r, v, 0, true, depth+1, c16GenOpt{})
+		if c16Chance(r, 0.1) && rule.Chain.Chain == nil {
+			// a link written without any action list
+			rule.Chain.Actions = nil
+		}
 	}
 	return rule
 }
@@ -825,7 +889,25 @@ func c16GenDesc(r *rand.Rand, v *c16Vocab, nItems int, o c16GenOpt) *c16Desc {
 		// the long rule is never last: something must follow it (DESIGN.md §6 #12)
 		longAt = r.IntN(nItems - 1)
 	}
+	// SecDefaultAction items: placed before the rules that rely on them (at most one per phase)
+	var pref []int
+	defAt := map[int][]c16Act{}
+	if c16Chance(r, 0.35) {
+		phases := []int{1, 2, 3, 4, 5}
+		r.Shuffle(len(phases), func(i, j int) { phases[i], phases[j] = phases[j], phases[i] })
+		for _, ph := range phases[:1+r.IntN(2)] {
+			pref = append(pref, ph)
+			pos := 0
+			if nItems > 2 && c16Chance(r, 0.3) {
+				pos = 1
+			}
+			defAt[pos] = append(defAt[pos], c16AV("phase", c16Itoa(ph))) // marker; completed below
+		}
+	}
 	for i := 0; i < nItems; i++ {
+		for _, pa := range defAt[i] {
+			d.Items = append(d.Items, c16Item{Default: c16GenDefault(r, pa)})
+		}
 		if i != longAt && c16Chance(r, 0.12) {
 			d.Items = append(d.Items, c16Item{Marker: c16Pick(r, []string{"END_HOST_CHECK", "M1", "BEGIN-X", "m_" + c16Itoa(i), "9001"})})
 			continue
@@ -835,9 +917,44 @@ func c16GenDesc(r *rand.Rand, v *c16Vocab, nItems int, o c16GenOpt) *c16Desc {
 		if i == longAt {
 			oo = o
 		}
+		oo.pref = pref
 		d.Items = append(d.Items, c16Item{Rule: c16GenRule(r, v, id, false, 0, oo)})
 	}
 	return d
+}
+
+// c16GenDefault builds the action list of a SecDefaultAction: phase, one disruptive action, optional
+// status and log flags (no metadata, no transformations: the directive refuses those).
+func c16GenDefault(r *rand.Rand, phase c16Act) []c16Act {
+	var as []c16Act
+	switch r.IntN(6) {
+	case 0, 1, 2:
+		as = append(as, c16A("deny"))
+		if c16Chance(r, 0.8) {
+			as = append(as, c16AV("status", c16Pick(r, []string{"403", "405", "429", "503"})))
+		}
+	case 3:
+		as = append(as, c16A("drop"))
+	case 4:
+		as = append(as, c16A("pass"))
+	default:
+		as = append(as, c16AV("redirect", c16Pick(r, []string{"http://example.com/blocked", "https://x.test/a?b=c,d", "/err:1"})))
+		if c16Chance(r, 0.6) {
+			as = append(as, c16AV("status", c16Pick(r, []string{"301", "302", "307"})))
+		}
+	}
+	if c16Chance(r, 0.7) {
+		as = append(as, c16A(c16Pick(r, []string{"log", "nolog"})))
+	}
+	if c16Chance(r, 0.6) {
+		as = append(as, c16A(c16Pick(r, []string{"auditlog", "noauditlog"})))
+	}
+	r.Shuffle(len(as), func(i, j int) { as[i], as[j] = as[j], as[i] })
+	pos := 0
+	if c16Chance(r, 0.3) {
+		pos = r.IntN(len(as) + 1)
+	}
+	return append(as[:pos:pos], append([]c16Act{phase}, as[pos:]...)...)
 }
 
 // ---------------------------------------------------------------------------------------------
@@ -877,6 +994,9 @@ func c16ValueClass(what, got, want string) string {
 			}
 			return "roundtrip:action-value-truncated"
 		}
+		if strings.TrimSpace(want) == got {
+			return "roundtrip:action-value-blanks-lost"
+		}
 		if strings.Trim(want, "'\"") == got || strings.Trim(got, "'\"") == want || strings.ReplaceAll(want, `\'`, `'`) == got {
 			return "roundtrip:action-value-quotes"
 		}
@@ -886,14 +1006,15 @@ func c16ValueClass(what, got, want string) string {
 
 // c16CompareRule compares one compiled rule (or chain link) with its description.
 func c16CompareRule(d *c16Rule, g *verifapi.Rule, link bool, out *[]c16Diff) {
-	c16CompareRuleAt(d, g, link, "", out)
+	c16CompareRuleAt(d, g, link, "", nil, out)
 }
 
 func c16HasFrag(state, frag string) bool {
 	return strings.Contains(state, frag+" ") || strings.Contains(state, frag+"}")
 }
 
-func c16CompareRuleAt(d *c16Rule, g *verifapi.Rule, link bool, where string, out *[]c16Diff) {
+// defs: the SecDefaultAction lists in force when the rule is parsed, by phase (without their phase action).
+func c16CompareRuleAt(d *c16Rule, g *verifapi.Rule, link bool, where string, defs map[int][]c16Act, out *[]c16Diff) {
 	if where == "" {
 		for _, a := range d.Actions {
 			if strings.EqualFold(a.Name, "id") {
@@ -1019,13 +1140,48 @@ func c16CompareRuleAt(d *c16Rule, g *verifapi.Rule, link bool, where string, out
 		}
 	}
 	parsePhase := exp.phase // links: the phase in force while their actions are parsed is the default one
-	if len(d.Actions) == 0 {
-		parsePhase = 0 // a rule written without an action list gets no default actions at all
+	// default actions in force: the SecDefaultAction of the phase, else the built-in list of phase 2;
+	// a rule written without an action list gets no default actions at all
+	var defActs []c16Act
+	hasDefaults, userDefaults := false, false
+	if len(d.Actions) > 0 {
+		if da, ok := defs[parsePhase]; ok {
+			defActs, hasDefaults, userDefaults = da, true, true
+		} else if parsePhase == 2 {
+			defActs, hasDefaults = []c16Act{c16A("log"), c16A("auditlog"), c16A("pass")}, true
+		}
 	}
-	if parsePhase == 2 {
-		exp.log, exp.audit = true, true // built-in default actions of phase 2: log,auditlog,pass
+	// merge (documented rule): non-disruptive defaults first, then the rule's own actions; `block` and
+	// a missing disruptive action resolve to the default disruptive action, which comes last
+	var merged []c16Act
+	var defDA *c16Act
+	for i, a := range defActs {
+		if c16IsDisruptive(a.Name) {
+			defDA = &defActs[i]
+			continue
+		}
+		merged = append(merged, a)
 	}
+	ownDA := false
 	for _, a := range d.Actions {
+		if c16IsDisruptive(a.Name) {
+			if hasDefaults && strings.ToLower(a.Name) == "block" {
+				continue
+			}
+			ownDA = true
+		}
+		merged = append(merged, a)
+	}
+	if hasDefaults && !ownDA && defDA != nil {
+		merged = append(merged, *defDA)
+	}
+	inherit := func(class string) string {
+		if userDefaults {
+			return "roundtrip:inherited-default-actions"
+		}
+		return class
+	}
+	for _, a := range merged {
 		val := string(a.Val)
 		ln := strings.ToLower(a.Name)
 		q := func(s string) string { return fmt.Sprintf("%q", s) }
@@ -1170,7 +1326,7 @@ func c16CompareRuleAt(d *c16Rule, g *verifapi.Rule, link bool, where string, out
 		add("roundtrip:maturity", "expected maturity %d, compiled %d", exp.maturity, g.Maturity)
 	}
 	if g.DisruptiveStatus != exp.status {
-		add("roundtrip:status", "expected status %d, compiled %d", exp.status, g.DisruptiveStatus)
+		add(inherit("roundtrip:status"), "expected status %d, compiled %d", exp.status, g.DisruptiveStatus)
 	}
 	if strings.Join(g.Transformations, "+") != strings.Join(exp.trans, "+") {
 		add("roundtrip:transformations", "expected %v, compiled %v", exp.trans, g.Transformations)
@@ -1179,40 +1335,26 @@ func c16CompareRuleAt(d *c16Rule, g *verifapi.Rule, link bool, where string, out
 		add("roundtrip:flags", "expected capture=%v multiMatch=%v chain=%v, compiled %v %v %v", exp.capture, exp.multi, exp.chain, g.Capture, g.MultiMatch, g.HasChain)
 	}
 	if g.Log != exp.log || g.Audit != exp.audit {
-		add("roundtrip:log-flags", "expected log=%v audit=%v, compiled %v %v", exp.log, exp.audit, g.Log, g.Audit)
+		add(inherit("roundtrip:log-flags"), "expected log=%v audit=%v, compiled %v %v", exp.log, exp.audit, g.Log, g.Audit)
 	}
-	// action list: the described non-metadata actions appear in order; anything else is a built-in default
-	gi := 0
+	// action list: exactly the merged list (defaults, own actions, resolved disruptive action)
+	var wantNames []string
 	for _, e := range ea {
-		name := e.name
-		if name == "block" && parsePhase == 2 {
-			continue // block resolves to the default disruptive action (pass), appended last
-		}
-		found := false
-		for gi < len(g.Actions) {
-			ga := g.Actions[gi]
-			gi++
-			if strings.ToLower(ga.Name) == name {
-				found = true
-				for _, f := range e.frags {
-					if !c16HasFrag(ga.State, f) {
-						add(c16ValueClass("action-value", "", e.desc), "%s:%s compiled state %s lacks %s", name, c16Q(e.desc), c16Q(ga.State), f)
-					}
-				}
-				break
-			}
-			if !(parsePhase == 2 && (ga.Name == "log" || ga.Name == "auditlog" || ga.Name == "pass")) {
-				add("roundtrip:action-list", "unexpected compiled action %s before %s", ga.Name, name)
-			}
-		}
-		if !found {
-			add("roundtrip:action-list", "action %s:%s not in compiled list %v", name, c16Q(e.desc), c16ActNames(g))
-		}
+		wantNames = append(wantNames, e.name)
 	}
-	for ; gi < len(g.Actions); gi++ {
-		ga := g.Actions[gi]
-		if !(parsePhase == 2 && (ga.Name == "log" || ga.Name == "auditlog" || ga.Name == "pass")) {
-			add("roundtrip:action-list", "unexpected compiled action %s (list %v)", ga.Name, c16ActNames(g))
+	gotNames := c16ActNames(g)
+	for i := range gotNames {
+		gotNames[i] = strings.ToLower(gotNames[i])
+	}
+	if strings.Join(wantNames, ",") != strings.Join(gotNames, ",") {
+		add(inherit("roundtrip:action-list"), "expected compiled actions %v, compiled %v", wantNames, gotNames)
+	} else {
+		for i, e := range ea {
+			for _, f := range e.frags {
+				if !c16HasFrag(g.Actions[i].State, f) {
+					add(c16ValueClass("action-value", "", e.desc), "%s:%s compiled state %s lacks %s", e.name, c16Q(e.desc), c16Q(g.Actions[i].State), f)
+				}
+			}
 		}
 	}
 	// ---- chain
@@ -1222,7 +1364,7 @@ func c16CompareRuleAt(d *c16Rule, g *verifapi.Rule, link bool, where string, out
 	case d.Chain != nil && g.Chain == nil:
 		add("roundtrip:chain-structure", "compiled rule lacks its chain link")
 	case d.Chain != nil:
-		c16CompareRuleAt(d.Chain, g.Chain, true, where+" link", out)
+		c16CompareRuleAt(d.Chain, g.Chain, true, where+" link", defs, out)
 	}
 }
 
@@ -1237,11 +1379,24 @@ func c16ActNames(g *verifapi.Rule) []string {
 // c16CompareDesc compares a whole compiled configuration with its description.
 func c16CompareDesc(d *c16Desc, rules []*verifapi.Rule) []c16Diff {
 	var out []c16Diff
-	if len(rules) != len(d.Items) {
-		out = append(out, c16Diff{Class: "roundtrip:rule-count", Detail: fmt.Sprintf("expected %d rules/markers, compiled %d", len(d.Items), len(rules))})
+	if n := len(d.compiled()); len(rules) != n {
+		out = append(out, c16Diff{Class: "roundtrip:rule-count", Detail: fmt.Sprintf("expected %d rules/markers, compiled %d", n, len(rules))})
 		return out
 	}
-	for i, it := range d.Items {
+	defs := map[int][]c16Act{}
+	i := -1
+	for _, it := range d.Items {
+		if it.Default != nil {
+			var acts []c16Act
+			for _, a := range it.Default {
+				if strings.ToLower(a.Name) != "phase" {
+					acts = append(acts, a)
+				}
+			}
+			defs[c16PhaseOf(it.Default)] = acts
+			continue
+		}
+		i++
 		g := rules[i]
 		if it.Marker != "" {
 			if g.SecMark != it.Marker {
@@ -1253,7 +1408,12 @@ func c16CompareDesc(d *c16Desc, rules []*verifapi.Rule) []c16Diff {
 			out = append(out, c16Diff{Class: "roundtrip:marker", Detail: fmt.Sprintf("item %d: expected a rule, compiled marker %q", i, g.SecMark)})
 			continue
 		}
-		c16CompareRule(it.Rule, g, false, &out)
+		// the rule sees the defaults defined so far (a copy: later directives do not reach back)
+		snap := map[int][]c16Act{}
+		for k, v := range defs {
+			snap[k] = v
+		}
+		c16CompareRuleAt(it.Rule, g, false, "", snap, &out)
 	}
 	return out
 }
